@@ -456,6 +456,151 @@ def check_case(
 
 
 # ---------------------------------------------------------------------------
+# guided reachability ("steering"): exhaustiveness where the permitted set cannot be enumerated
+# ---------------------------------------------------------------------------
+def _wide_array_doc(rng) -> Any:
+    """Arrays only (so the walk's only freedom is which pending run comes next): a root with W
+    elements, each holding containers of its own -- far more runs pending at once than any
+    enumerable case has."""
+    w = rng.choice((4, 12, 33, 66, 70, 130))
+    kind = rng.random()
+    n = [0]
+
+    def leaf():
+        n[0] += 1
+        return [n[0]]
+
+    if kind < 0.5:
+        return [[leaf()] for _ in range(w)]
+    if kind < 0.8:
+        return [[leaf(), leaf()] if i % 3 == 0 else [leaf()] for i in range(w)]
+    return [[[leaf()]] if i % 2 else [leaf()] for i in range(max(2, w // 2))]
+
+
+def _target_visit_order(rng, doc: Any) -> List[Tuple]:
+    """A linear extension of {parent before child, array elements in index order}, built with the
+    reference's own frontier of runs: mostly the oldest run, with a few deviations to a random
+    pending run (newest run, a run in the middle, a child straight after its parent)."""
+    def runs_of(loc: Tuple) -> List[List[Tuple]]:
+        v = D.get(doc, loc)
+        kids = [loc + (i,) for i, c in enumerate(v) if isinstance(c, (list, dict))]
+        return [kids] if kids else []
+
+    order = [()]
+    frontier = runs_of(())
+    n_cont = sum(1 for _ in _iter_containers(doc))
+    deviate_at = set(rng.sample(range(1, max(3, n_cont)), min(n_cont - 2, rng.choice((1, 2, 3, 5)))))
+    deviate_at.add(rng.randrange(n_cont // 2, n_cont))  # one where most runs are pending
+    step = 0
+    while frontier:
+        step += 1
+        if step in deviate_at or rng.random() < (0.07 if len(frontier) > 40 else 0.03):
+            i = rng.choice((len(frontier) - 1, rng.randrange(len(frontier)), len(frontier) - 1))
+        else:
+            i = 0
+        run = frontier[i]
+        node = run.pop(0)
+        if not run:
+            del frontier[i]
+        order.append(node)
+        frontier.extend(runs_of(node))
+    return order
+
+
+def _iter_containers(v: Any):
+    if isinstance(v, (list, dict)):
+        yield v
+        for c in (v.values() if isinstance(v, dict) else v):
+            yield from _iter_containers(c)
+
+
+def _result_for_visit_order(doc: Any, order: List[Tuple]) -> List[Tuple]:
+    out = []
+    for loc in order:
+        v = D.get(doc, loc)
+        out.extend(loc + (i,) for i in range(len(v)))
+    return out
+
+
+def _steer_eval(text: str, doc: Any, plan: List[int]):
+    assert _NENV is not None
+    sim = simrandom.SteerRandom(1, plan)
+    sim.cap = 200_000
+    simrandom.install(sim)
+    res: List[Tuple] = []
+    exc = None
+    try:
+        try:
+            for node in _NENV.finditer(text, doc):
+                res.append(tuple(node.location))
+                sim.produced = len(res)
+        except simrandom.ChoiceBudgetExceeded:
+            exc = "no-termination"
+        except Exception as e:  # noqa: BLE001
+            exc = type(e).__name__
+    finally:
+        simrandom.uninstall()
+    return res, sim, exc
+
+
+def steer(text: str, doc: Any, target: List[Tuple], budget: int) -> Dict[str, Any]:
+    """Depth-first search over the index decisions for an outcome that produces *target*.
+    Complete within its budget: a decision is only ever changed when every later decision comes
+    after the first wrong node, so no reachable target is pruned away."""
+    plan: List[int] = []
+    evals = 0
+    while evals < budget:
+        evals += 1
+        res, sim, exc = _steer_eval(text, doc, plan)
+        if sim.unsupported:
+            return {"status": "unsupported", "evals": evals}
+        if exc is not None:
+            return {"status": "error", "exc": exc, "evals": evals}
+        if res == target:
+            return {"status": "reached", "evals": evals, "decisions": len(sim.decisions)}
+        p = next((i for i, (a, b) in enumerate(zip(res, target)) if a != b), min(len(res), len(target)))
+        dec = sim.decisions
+        k = max((i for i, d in enumerate(dec) if d[2] <= p), default=-1)
+        if k < 0:
+            return {"status": "unreachable", "evals": evals, "at": p}
+        plan = [d[1] for d in dec[: k + 1]]
+        plan[k] += 1
+        while plan and plan[-1] >= dec[len(plan) - 1][0]:
+            plan.pop()
+            if plan:
+                plan[-1] += 1
+        if not plan:
+            return {"status": "unreachable", "evals": evals, "at": p}
+    return {"status": "undecided", "evals": evals}
+
+
+def steer_case(seed: int, tier: str) -> Dict[str, Any]:
+    rng = seeds.stream(seed, "workload")
+    doc = _wide_array_doc(rng)
+    text = "$..[*]"
+    order = _target_visit_order(rng, doc)
+    target = _result_for_visit_order(doc, order)
+    out = steer(text, doc, target, 8000 if tier == "thorough" else 4000)
+    st: Counter = Counter()
+    st["steer_cases"] += 1
+    st[f"steer_{out['status']}"] += 1
+    st["steer_evaluations"] += out["evals"]
+    viols = []
+    if out["status"] == "unreachable":
+        viols.append(
+            {
+                "class": "exhaustive:unreachable-visit-order",
+                "signature": f"C17:exhaustive:unreachable-visit-order:width={len(doc)}",
+                "what": f"{text} over an array document with {len(doc)} top-level elements ({len(order)} containers): a visit order RFC 9535 permits (parents first, array order kept; first wrong node at result position {out['at']}) is produced by NO outcome of the index choices (complete search, {out['evals']} evaluations)",
+                "payload": {"kind": "steer", "doc": doc, "query_text": text, "target": [list(t) for t in target], "budget": 6000},
+            }
+        )
+    elif out["status"] == "error":
+        viols.append(_viol("invalid:exception", f"{text} over a wide array document: nondeterministic evaluation raised {out['exc']} while being steered", {"kind": "steer", "doc": doc, "query_text": text, "target": [list(t) for t in target], "budget": 6000}))
+    return {"violations": viols, "stats": st, "events": [["steer", len(doc), out["status"]]], "sigs": {seeds.digest([doc, [list(t) for t in target][:50]])}, "steps": out["evals"]}
+
+
+# ---------------------------------------------------------------------------
 # run generation
 # ---------------------------------------------------------------------------
 def _gen_random_case(rng) -> Tuple[Dict[str, Any], Any]:
@@ -498,8 +643,14 @@ def _gen_random_case(rng) -> Tuple[Dict[str, Any], Any]:
     return q, doc
 
 
+STEER_CASES = {"quick": 60, "thorough": 1200}
+
+
 def run_one(seed: int, tier: str, index: int) -> Dict[str, Any]:
     cidx = corpus_for(tier)
+    if len(cidx) <= index < len(cidx) + STEER_CASES[tier]:
+        res = steer_case(seed, tier)
+        return {"digest": seeds.digest(res["events"]), "sigs": sorted(res["sigs"]), "stats": dict(res["stats"]), "steps": res["steps"], "violations": res["violations"], "sample": {"steer": res["events"][0]} if index % 10 == 0 else None}
     if index < len(cidx):
         ci = cidx[index]
         q, doc = CORPUS[ci]
@@ -540,6 +691,15 @@ def run_one(seed: int, tier: str, index: int) -> Dict[str, Any]:
 def replay(payload: Dict[str, Any]) -> List[Dict[str, Any]]:
     if _DENV is None:
         worker_init()
+    if payload.get("kind") == "steer":
+        doc, text = payload["doc"], payload["query_text"]
+        target = [tuple(t) for t in payload["target"]]
+        out = steer(text, doc, target, payload.get("budget", 6000))
+        if out["status"] == "unreachable":
+            return [{"class": "exhaustive:unreachable-visit-order", "signature": f"C17:exhaustive:unreachable-visit-order:width={len(doc)}", "what": f"replayed: target visit order unreachable ({out['evals']} evaluations)", "payload": payload}]
+        if out["status"] == "error":
+            return [_viol("invalid:exception", f"replayed: steering raised {out['exc']}", payload)]
+        return []
     q, doc = payload["query"], payload["doc"]
     if payload["kind"] == "validity":
         s = payload["stream"]
@@ -550,7 +710,7 @@ def replay(payload: Dict[str, Any]) -> List[Dict[str, Any]]:
 
 
 def shrink_candidates(payload: Dict[str, Any]):
-    if payload["kind"] != "validity":
+    if payload.get("kind") != "validity":
         return
     q, doc, s = payload["query"], payload["doc"], payload["stream"]
     for d2 in D.shrink_json(doc):
